@@ -186,12 +186,20 @@ func (g gctx) iterable() string {
 func (g gctx) genFunc() string {
 	in := g.inner(siteGen)
 	in.gen = true
+	if g.pick("genshape", 3) == 0 {
+		// suspended inside a try block: a throw() from the driver is caught by the body, which goes on to a fault point
+		return "function*() { try { " + in.P() + "; yield 1; " + in.stmts(1) + "} catch (e) { " + in.P() + "; " + in.stmts(2) + "} finally { " + in.P() + "; } " + in.stmts(1) + "}"
+	}
 	return "function*() { " + in.stmts(4) + "}"
 }
 
 func (g gctx) asyncFunc() string {
 	in := g.inner(siteGen)
 	in.async = true
+	if g.pick("asyncshape", 3) == 0 {
+		// resumed by a rejected await inside a try block whose catch goes on to a fault point
+		return "async function() { try { " + in.P() + "; await Promise.reject(new Error(\"rej\")); } catch (e) { " + in.P() + "; " + in.stmts(2) + "} finally { " + in.P() + "; } " + in.stmts(1) + "}"
+	}
 	if g.pick("asyncarrow", 2) == 0 {
 		return "async () => { " + in.stmts(4) + "}"
 	}
@@ -428,7 +436,9 @@ func (g gctx) genDrive() string {
 	sb.WriteString("{ const g = (" + g.genFunc() + ")(); ")
 	n := 1 + g.pick("gdrive", 4)
 	for i := 0; i < n; i++ {
-		switch g.pick("gop", 7) {
+		switch g.pick("gop", 9) {
+		case 7, 8:
+			sb.WriteString("try { a = g.throw(new Error(\"gt2\")).value; } catch (e) { log(\"" + g.tag + ":gt2:\" + D(e)); } ")
 		case 0, 1, 2:
 			sb.WriteString("a = g.next(" + g.expr() + ").value; ")
 		case 3:
@@ -473,7 +483,14 @@ func (g gctx) promiseStmt() string {
 func (g gctx) classStmt() string {
 	in := g.inner(0)
 	in.strict = true
-	switch g.pick("classk", 3) {
+	switch g.pick("classk", 5) {
+	case 3, 4:
+		// fault points at class DEFINITION time inside a class with private names (computed key, static field
+		// initialiser, static block): the private environment is installed in the defining activation itself
+		sb := g.inner(0)
+		sb.fn, sb.strict = false, true
+		return "{ class D { #q = 1; static #sq = 2; [(" + g.P() + ", \"ck\")]() { return this.#q; } static sv = (" + g.P() + ", D.#sq); static { " + sb.stmts(1) + "} static has(o) { return #q in o; } } " +
+			"a = D.sv; b = D.has(new D()) ? 1 : 0; }"
 	case 0:
 		return "{ class C { #p = (" + g.P() + ", 1); static s = 2; constructor() { " + in.stmts(2) + "} #m() { " + in.P() + "; return this.#p; } get x() { return this.#m(); } static has(o) { return #p in o; } } " +
 			"a = new C().x; b = C.has({}) ? 1 : 0; }"
